@@ -135,7 +135,7 @@ def _py_class(out, ind, cls, infos):
     for i, mem in enumerate(cls["members"]):
         _py_member(out, ind + 1, mem, i, d)
         d += mem["kind"] == "dunder"
-    info = {"name": cls["name"], "line": start + 1}
+    info = {"name": cls["name"], "line": start + 1, "cls": cls}
     infos.append(info)
     for sub in cls.get("nested", []):
         _py_class(out, ind + 1, dict(sub, in_func=False), infos)
@@ -207,7 +207,7 @@ def _ts_class(out, cls, infos, lang):
     for i, mem in enumerate(cls["members"]):
         _ts_member(out, ind + 1, mem, i, lang)
     out.add(ind, "}" if form == "decl" else "};")
-    infos.append({"name": cls["name"], "line": start + 1, "spans": [(start, out.pos())]})
+    infos.append({"name": cls["name"], "line": start + 1, "spans": [(start, out.pos())], "cls": cls})
     if form == "returned":
         out.add(0, "}")
 
@@ -352,7 +352,7 @@ def render(file):
 
     walk(classes)
     for info in infos:
-        c = by_name[info["name"]]
+        c = info.pop("cls", None) or by_name[info["name"]]  # (several classes of a file may share a name)
         loc, phys, blockc = _count(info["spans"], out.lines)
         info["loc"], info["phys"], info["loc_block"] = loc, phys, loc + blockc
         info["m"] = sum(1 for mem in effective_members(c, lang) if mem["kind"] in COUNTED)
